@@ -18,7 +18,7 @@ ASSUMPTIONS = ['dependent formulas are linear combinations generated from the ed
 BOUNDS = {'quick': 'all DAGs on <= 4 variables (64 edge sets x 24 declaration orders), all directed graphs on 3 variables (cyclic included), chains of length 5, '
                    '2 samples; numbered indices incl. negative and multi-digit', 'thorough': 'all DAGs on 5 variables x 8 declaration orders'}
 OUTSIDE = ['non-linear dependent formulas (value equality is by term)', 'array-valued dependents beyond the three listed forms', 'graphs beyond the bound']
-DEADLINE = {'quick': 150, 'thorough': 1500}
+DEADLINE = {'quick': 600, 'thorough': 1500}
 FUNCS = ['sampling.gen_symbols_samples', 'sampling.DependentSampler.__init__/compute_sample', 'sampling.is_subset', 'MathMixin.gen_var_and_func_samples',
          'MathMixin.generate_variable_list', 'MathMixin.get_used_vars', 'math_helpers.numbered_vars_regexp', 'sampling.construct_constants', 'expressions.evaluator']
 STUBS = ['SymSampler']
